@@ -148,7 +148,8 @@ def _free_name(rng, w, parent_path, names, kind):
 def _motif(rng, w, names, inside=None, idtag=""):
     """A structured op sequence the random generator almost never produces: a path that comes to name a
     different entry than before (directory renamed away and re-created, sibling directories swapped, a file
-    renamed onto the path of a removed file, two files swapped through a temporary name), combined with
+    renamed onto the path of a removed file, two files swapped through a temporary name, a file replaced by a
+    directory and the reverse), combined with
     in-place renames, additions and content edits below / at those paths.  Returns (kind, [op, ...]) or None."""
     from vf.model import ROOT
 
@@ -173,6 +174,10 @@ def _motif(rng, w, names, inside=None, idtag=""):
         if others:
             cands.append(("file-replace", f))
             cands.append(("file-swap", f))
+    for f in files:
+        cands.append(("file-becomes-dir", f))
+    for d in dirs:
+        cands.append(("dir-becomes-file", d))
     if not cands:
         return None
     kinds = sorted({k for k, _ in cands})
@@ -185,7 +190,14 @@ def _motif(rng, w, names, inside=None, idtag=""):
     def content():
         return gen.gen_content(rng, hostile=False) or b"motif\n"
 
-    if kind == "dir-recreate":
+    if kind == "file-becomes-dir":
+        # the path of a removed file is taken by a new directory with content (on git an empty one would not exist)
+        inner = rng.choice(names.files)
+        ops += [{"op": "remove", "path": pa}, {"op": "mkdir", "path": pa}, {"op": "add", "path": pa, "id": idtag + w.new_id("fd")},
+                {"op": "mkfile", "path": pa + "/" + inner, "content": content()}, {"op": "add", "path": pa + "/" + inner, "id": idtag + w.new_id(inner)}]
+    elif kind == "dir-becomes-file":
+        ops += [{"op": "remove", "path": pa}, {"op": "mkfile", "path": pa, "content": content()}, {"op": "add", "path": pa, "id": idtag + w.new_id("df")}]
+    elif kind == "dir-recreate":
         moved = _free_name(rng, w, parent, names, "directory")
         if moved is None or not ok(moved):
             return None
